@@ -67,7 +67,7 @@ def to_script(api, hist):
         elif api == "pyw":
             lines.append("write %d %s %d" % (i, "MODE", n))
         elif api == "pyr":
-            lines.append("read %d" % i if op == "read" else "take %d %d" % (i, n))
+            lines.append({"read": "read %d" % i, "take": "take %d %d" % (i, n), "drop": "drop %d" % i}[op])
     return lines
 
 
